@@ -1056,6 +1056,7 @@ where
 
             // Check on plugin results.
             if let Some(PluginOutput::Deny(error)) = plugin_output {
+                self.forget_buffered_prepared_statements();
                 self.reset_buffered_state();
                 error_response(&mut self.write, &error).await?;
                 plugin_output = None;
@@ -1368,6 +1369,7 @@ where
                             Some(PluginOutput::Deny(error)) => {
                                 error_response(&mut self.write, &error).await?;
                                 plugin_output = None;
+                                self.forget_buffered_prepared_statements();
                                 self.reset_buffered_state();
                                 continue;
                             }
@@ -1375,6 +1377,7 @@ where
                             Some(PluginOutput::Intercept(result)) => {
                                 write_all(&mut self.write, result).await?;
                                 plugin_output = None;
+                                self.forget_buffered_prepared_statements();
                                 self.reset_buffered_state();
                                 continue;
                             }
@@ -1974,6 +1977,21 @@ where
                     "Prepared statement `{}` doesn't exist",
                     client_given_name
                 )))
+            }
+        }
+    }
+
+    /// Forget the statements prepared by the batch that is about to be discarded because a
+    /// plugin refused it: a later Bind must not run a refused statement from the cache.
+    fn forget_buffered_prepared_statements(&mut self) {
+        for data in self.extended_protocol_data_buffer.iter() {
+            if let ExtendedProtocolData::Parse {
+                metadata: Some((parse, _)),
+                ..
+            } = data
+            {
+                self.prepared_statements
+                    .retain(|_, (cached, _)| cached.name != parse.name);
             }
         }
     }
